@@ -109,6 +109,10 @@ def gate_atoms(path, qname):
         for q in parts:
             if q[0] == "atom" and isinstance(q[1], tuple) and q[1][0] == "call" and q[1][1] == qname:
                 out.append((q[1], q[2]))
+            elif q[0] == "or" and all(x[0] == "atom" for x in q[1]) and len({(x[1], x[2]) for x in q[1]}) == 1:
+                x = next(iter(q[1]))
+                if isinstance(x[1], tuple) and x[1][0] == "call" and x[1][1] == qname:
+                    out.append((x[1], x[2]))
     return out
 
 
